@@ -302,6 +302,10 @@ type runner struct {
 	// is parked until release is closed
 	tags    map[int64]int
 	park    bool
+	// race with a two-load leader: its second load (tag 1) is parked as well
+	park2    bool
+	entered2 chan struct{}
+	release2 chan struct{}
 	entered chan struct{}
 	release chan struct{}
 }
@@ -320,12 +324,15 @@ func goid() int64 {
 
 func (r *runner) record(c PCall) {
 	r.mu.Lock()
-	parkNow := false
+	parkNow, park2Now := false, false
 	if r.tags != nil {
 		c.By = r.tags[goid()]
 		if r.park && c.By == 0 {
 			r.park = false
 			parkNow = true
+		} else if r.park2 && c.By == 1 {
+			r.park2 = false
+			park2Now = true
 		}
 	}
 	r.calls = append(r.calls, c)
@@ -333,6 +340,10 @@ func (r *runner) record(c PCall) {
 	if parkNow {
 		close(r.entered)
 		<-r.release
+	}
+	if park2Now {
+		close(r.entered2)
+		<-r.release2
 	}
 }
 
@@ -404,8 +415,12 @@ func blockedInLoad(id int64) bool {
 func raceStep(r *runner, c *target.Config, held **pb.Configuration, o Op) Obs {
 	var cfgs []*Cfg
 	leader := o.Cfg != nil
+	two := leader && o.Cfg2 != nil // the leader goroutine loads Cfg, then at once Cfg2
 	if leader {
 		cfgs = append(cfgs, o.Cfg)
+	}
+	if two {
+		cfgs = append(cfgs, o.Cfg2)
 	}
 	cfgs = append(cfgs, o.Cfgs...)
 	n := len(cfgs)
@@ -419,15 +434,21 @@ func raceStep(r *runner, c *target.Config, held **pb.Configuration, o Op) Obs {
 	r.park = leader
 	r.entered = make(chan struct{})
 	r.release = make(chan struct{})
+	r.park2 = two
+	r.entered2 = make(chan struct{})
+	r.release2 = make(chan struct{})
 	r.mu.Unlock()
-	released := false
+	released, released2 := false, false
 	defer func() {
 		r.mu.Lock()
 		r.tags = nil
-		r.park = false
+		r.park, r.park2 = false, false
 		r.mu.Unlock()
 		if !released {
 			close(r.release)
+		}
+		if !released2 {
+			close(r.release2)
 		}
 	}()
 	errs := make([]bool, n)
@@ -452,6 +473,14 @@ func raceStep(r *runner, c *target.Config, held **pb.Configuration, o Op) Obs {
 			}
 			defer func() { pans[i] = recover() }()
 			errs[i] = c.Load(ms[i]) != nil
+			if two && i == 0 {
+				// the same goroutine goes straight on to its next load: it takes c.mu
+				// again before the waiters it has just woken get to run
+				r.mu.Lock()
+				r.tags[id] = 1
+				r.mu.Unlock()
+				errs[1] = c.Load(ms[1]) != nil
+			}
 		}()
 	}
 	first := 0
@@ -465,6 +494,10 @@ func raceStep(r *runner, c *target.Config, held **pb.Configuration, o Op) Obs {
 			return Obs{Kind: "hang", Msg: "leading Load neither returned nor called a handler"}
 		}
 		first = 1
+		if two {
+			first = 2
+			dones[1] = dones[0]
+		}
 	}
 	for i := first; i < n; i++ {
 		launch(i, true)
@@ -491,6 +524,18 @@ func raceStep(r *runner, c *target.Config, held **pb.Configuration, o Op) Obs {
 		time.Sleep(3 * time.Millisecond)
 		released = true
 		close(r.release)
+		if two {
+			// the leader's second load: parked in its first handler call (or returned)
+			select {
+			case <-r.entered2:
+			case <-dones[0]:
+			case <-time.After(10 * time.Second):
+				return Obs{Kind: "hang", Msg: "leader's second Load neither returned nor called a handler"}
+			}
+			time.Sleep(3 * time.Millisecond)
+			released2 = true
+			close(r.release2)
+		}
 	}
 	fin := make(chan struct{})
 	go func() {
@@ -1010,6 +1055,9 @@ func opTerm(n *vh.Names, o Op) string {
 		var as []string
 		if o.Cfg != nil {
 			as = append(as, pcfgTerm(n, inCfg(o.Cfg)))
+			if o.Cfg2 != nil {
+				as = append(as, pcfgTerm(n, inCfg(o.Cfg2)))
+			}
 		}
 		for _, cf := range o.Cfgs {
 			as = append(as, pcfgTerm(n, inCfg(cf)))
@@ -1667,8 +1715,20 @@ func raceCase(r *vh.Rand, h *vh.Meta) Case {
 		for _, x := range cfgs {
 			x.Rev++
 		}
-		c.Ops = append(c.Ops, Op{K: "race", Cfg: lead, Cfgs: cfgs[:2]})
-		h.Hist("race:queued-behind-parked-load")
+		if r.Chance(1, 2) {
+			// the leader goroutine loads twice in a row (revisions 2 and 3), the racers carry revision 4
+			lead2 := cloneCfg(lead)
+			lead2.Rev = 3
+			lead2.Tgts = append(lead2.Tgts, Tgt{K: "lead2", Addrs: []string{"l:2"}, Req: lead.Reqs[0].K})
+			for _, x := range cfgs {
+				x.Rev = 4
+			}
+			c.Ops = append(c.Ops, Op{K: "race", Cfg: lead, Cfg2: lead2, Cfgs: cfgs[:2]})
+			h.Hist("race:queued-behind-two-parked-loads")
+		} else {
+			c.Ops = append(c.Ops, Op{K: "race", Cfg: lead, Cfgs: cfgs[:2]})
+			h.Hist("race:queued-behind-parked-load")
+		}
 	} else {
 		c.Ops = append(c.Ops, Op{K: "race", Cfgs: cfgs})
 	}
